@@ -40,7 +40,7 @@ def mapping_ids(v, acc):
 
 def all_dicts(v):
     if isinstance(v, dict):
-        return all(all_dicts(x) for x in v.values())
+        return type(v) is dict and all(all_dicts(x) for x in v.values())
     if isinstance(v, gm.ROMapping):
         return False
     return True
